@@ -50,6 +50,8 @@ class Knobs:
         self.p_scen = 0.0
         self.p_prec = 0.0
         self.p_group = 0.25
+        self.p_group_alloc = 0.08
+        self.p_twin = 0.2
         self.p_gvac = 0.2
         self.aligned_only = True      # calendars / starts / gaps multiples of the resolution
         self.forward_only = False
@@ -132,6 +134,10 @@ def gen_project(rng, k=None):
     if pick(rng, k.p_gvac):
         a = day()
         p["vacations"] = [[a, None if pick(rng, 0.5) else a + rng.choice([1, 2, 3]) * D]]
+        while pick(rng, 0.45) and len(p["vacations"]) < 3:
+            # further company holidays, declared in any order (not chronologically)
+            b = day()
+            p["vacations"].insert(rng.randrange(len(p["vacations"]) + 1), [b, None if pick(rng, 0.6) else b + rng.choice([1, 2]) * D])
     if pick(rng, k.p_gvac):
         a = day()
         p["leaves"] = [["holiday", a, None if pick(rng, 0.6) else a + rng.choice([1, 2]) * D]]
@@ -207,6 +213,9 @@ def gen_project(rng, k=None):
                     t["alloc"] = rng.sample(ids, 2)
                 elif len(ids) >= 2 and pick(rng, k.p_alt):
                     t["alt"] = [rng.choice([x for x in ids if x not in t["alloc"]])]
+                elif group is not None and pick(rng, k.p_group_alloc):
+                    # a resource group allocated directly: groups have no time of their own, the task cannot be placed
+                    t["alloc"] = ["grp"] if pick(rng, 0.7) else ["grp", rng.choice(ids)]
         if pick(rng, 0.5):
             t["prio"] = rng.choice([100, 300, 500, 700, 900, 1000])
         return fid, t
@@ -230,7 +239,13 @@ def gen_project(rng, k=None):
             for j in range(min(n, ntask - i)):
                 par = inner if (inner is not None and pick(rng, 0.6)) else c
                 pfid = cfid + ".in" if par is inner else cfid
-                fid, t = new_leaf(f"t{i}", pfid)
+                nm = f"t{i}"
+                if pick(rng, k.p_twin):
+                    # the same local id in different containers (full ids stay unique)
+                    cand = rng.choice(["w", "x"])
+                    if all(ch["id"] != cand for ch in par["children"]):
+                        nm = cand
+                fid, t = new_leaf(nm, pfid)
                 par["children"].append(t)
                 flat.append((fid, t, False))
                 i += 1
@@ -335,8 +350,13 @@ def gen_limits(rng, G, group=False):
     lim = {}
     if pick(rng, 0.7):
         lim["dailymax"] = rng.choice(["2h", "3h", "4h", "6h", "1h", "5h"]) if not group else rng.choice(["3h", "5h", "8h"])
+        if pick(rng, 0.3):
+            # values that are not a whole number of slots: the limit is the number of WHOLE slots that fit
+            lim["dailymax"] = rng.choice(["3.5h", "2.5h", "150min", "100min", "2.75h", "4.5h", "1.5h"])
     if not lim or pick(rng, 0.4):
         lim["weeklymax"] = rng.choice(["10h", "12h", "20h", "8h"]) if not group else rng.choice(["15h", "25h"])
+        if pick(rng, 0.25):
+            lim["weeklymax"] = rng.choice(["10.5h", "7.5h", "12.75h", "500min"])
     return lim
 
 
